@@ -459,7 +459,8 @@ Lemma keyval_eq a b :
   keyval a = true -> keyval b = true -> key_eqb a b = true -> dkey_eqb (to_dv a) (to_dv b) = true.
 Proof.
   destruct a, b; cbn [keyval key_eqb to_dv dkey_eqb]; try congruence; try (intros _ _ H; exact H).
-  intros Ha Hb H. apply bytes_eqb_eq in Ha, Hb, H. subst. apply bytes_eqb_eq. reflexivity.
+  - intros _ _ H. apply N.eqb_eq in H. subst. apply Z.eqb_refl.
+  - intros Ha Hb H. apply bytes_eqb_eq in Ha, Hb, H. subst. apply bytes_eqb_eq. reflexivity.
 Qed.
 
 Section Leaves.
@@ -564,9 +565,9 @@ Section Leaves.
                           (p = PKey -> keyval x = true).
   Proof.
     intro H. destruct e; cbn [leaf_ok] in H; try discriminate;
-      try (do 2 eexists; split; [reflexivity|]; split; [reflexivity|]; intro n;
+      try (do 2 eexists; split; [reflexivity|]; split; [reflexivity|]; intro k0;
            eexists; split; [reflexivity|]; split; [reflexivity|]; split; [reflexivity|];
-           intro Hp; subst; try reflexivity; discriminate).
+           intro Hp; subst; first [reflexivity | discriminate]).
     - (* ENegInt *)
       apply andb_true_iff in H as [H0 Hk]. apply negb_true_iff in H0.
       do 2 eexists. split; [reflexivity|]. split; [reflexivity|]. intro k.
@@ -575,44 +576,44 @@ Section Leaves.
       + eexists. split; [reflexivity|]. split; [reflexivity|]. split; [reflexivity|]. reflexivity.
       + eexists. split; [reflexivity|]. split; [reflexivity|]. split; [reflexivity|].
         intro Hp. subst. cbn in Hk. congruence.
-    - (* EBigInt *) destruct v; do 2 eexists; (split; [reflexivity|]); (split; [reflexivity|]); intro n;
+    - (* EBigInt *) destruct v; do 2 eexists; (split; [reflexivity|]); (split; [reflexivity|]); intro k0;
         eexists; (split; [reflexivity|]); (split; [reflexivity|]); (split; [reflexivity|]);
         intro Hp; subst; discriminate.
-    - (* EBigFloat *) destruct v; do 2 eexists; (split; [reflexivity|]); (split; [reflexivity|]); intro n;
+    - (* EBigFloat *) destruct v; do 2 eexists; (split; [reflexivity|]); (split; [reflexivity|]); intro k0;
         eexists; (split; [reflexivity|]); (split; [reflexivity|]); (split; [reflexivity|]);
         intro Hp; subst; discriminate.
-    - (* EBigDecimal *) destruct v; do 2 eexists; (split; [reflexivity|]); (split; [reflexivity|]); intro n;
+    - (* EBigDecimal *) destruct v; do 2 eexists; (split; [reflexivity|]); (split; [reflexivity|]); intro k0;
         eexists; (split; [reflexivity|]); (split; [reflexivity|]); (split; [reflexivity|]);
         intro Hp; subst; discriminate.
     - (* ENan *)
-      do 2 eexists. split; [reflexivity|]. split; [reflexivity|]. intro n.
+      do 2 eexists. split; [reflexivity|]. split; [reflexivity|]. intro k0.
       eexists. split; [reflexivity|]. split; [destruct signaling; vm_compute; reflexivity|].
       split; [reflexivity|]. intro Hp; subst; discriminate.
     - (* EUid *)
-      do 2 eexists. split; [reflexivity|]. split; [reflexivity|]. intro n.
+      do 2 eexists. split; [reflexivity|]. split; [reflexivity|]. intro k0.
       cbn [conv]. rewrite H. eexists. split; [reflexivity|]. split; [reflexivity|]. split; reflexivity.
     - (* ETime *)
-      do 2 eexists. split; [reflexivity|]. split; [reflexivity|]. intro n.
-      destruct (time_conv_ok (is_key p) s n H) as [x [Hc [Hd [Hh Hk]]]].
+      do 2 eexists. split; [reflexivity|]. split; [reflexivity|]. intro k0.
+      destruct (time_conv_ok (is_key p) s k0 H) as [x [Hc [Hd [Hh Hk]]]].
       exists x. split; [exact Hc|]. split; [exact Hd|]. split; [exact Hh|].
       intro Hp. subst. apply Hk. reflexivity.
     - (* EArray *)
-      do 2 eexists. split; [reflexivity|]. split; [reflexivity|]. intro n.
+      do 2 eexists. split; [reflexivity|]. split; [reflexivity|]. intro k0.
       destruct (is_key p) eqn:Hkp.
       + apply N.eqb_eq in H. subst. eexists. split; [reflexivity|]. split; [reflexivity|]. split; reflexivity.
-      + destruct (array_conv t data n H) as [x [Hc [Hd Hh]]].
+      + destruct (array_conv t data k0 H) as [x [Hc [Hd Hh]]].
         exists x. split; [exact Hc|]. split; [exact Hd|]. split; [exact Hh|].
         intro Hp. subst. discriminate.
     - (* EStringArray *)
-      do 2 eexists. split; [reflexivity|]. split; [reflexivity|]. intro n.
+      do 2 eexists. split; [reflexivity|]. split; [reflexivity|]. intro k0.
       destruct (is_key p) eqn:Hkp.
       + apply N.eqb_eq in H. subst. eexists. split; [reflexivity|]. split; [reflexivity|]. split; reflexivity.
-      + destruct (stringlike_conv t data n H) as [x [Hc [Hd Hh]]].
+      + destruct (stringlike_conv t data k0 H) as [x [Hc [Hd Hh]]].
         exists x. split; [exact Hc|]. split; [exact Hd|]. split; [exact Hh|].
         intro Hp. subst. discriminate.
     - (* EMedia *)
       apply andb_true_iff in H as [Hk _].
-      do 2 eexists. split; [reflexivity|]. split; [reflexivity|]. intro n.
+      do 2 eexists. split; [reflexivity|]. split; [reflexivity|]. intro k0.
       eexists. split; [reflexivity|]. split; [reflexivity|]. split; [reflexivity|].
       intro Hp; subst; discriminate.
   Qed.
